@@ -115,7 +115,26 @@ int main(void)
 '''
 
 
-def probe_source(schema, headers, prefix=''):
+def struct_leaves(schema, d, lay, base=0):
+    """flattened argument list of <Struct>_assign: (byte offset, size, kind) per scalar / enum leaf in declaration order, nested structs
+    expanded; None when the struct (or a nested one) has fixed arrays, deprecated members, bool or char leaves"""
+    out = []
+    for f, off in zip(d.fields, lay[d][0]):
+        t = f['type']
+        if f.get('deprecated') or t[0] == 'array': return None
+        if t[0] == 'struct':
+            sub = struct_leaves(schema, t[1], lay, base + off)
+            if sub is None: return None
+            out += sub
+        else:
+            st = G.canon(t[1] if t[0] == 'scalar' else t[1].type)
+            k = G.SC[st][1]
+            if k in ('bool', 'char'): return None
+            out.append((base + off, G.ssize(st), 'f' if k == 'float' else 'i'))
+    return out if len(out) <= 60 else None
+
+
+def probe_source(schema, headers, prefix='', lay=None):
     """C program printing sizeof/alignof/offsetof of every struct, every enum/union constant, the field id each
     compiled table accessor reads (found by presenting tables with exactly one vtable slot set), scalar defaults
     and vector element sizes. Uses only the `_get`-suffixed accessors (present with and without -g)."""
@@ -123,6 +142,16 @@ def probe_source(schema, headers, prefix=''):
     for d in schema.all_decls():
         c = d.cname(prefix)
         if d.kind == 'struct':
+            lv = struct_leaves(schema, d, lay) if lay is not None else None
+            if lv and any(f['type'][0] == 'struct' for f in d.fields):
+                # argument placement of the generated struct constructor: distinct values 1..n, every leaf read back at its rule offset
+                o.append('{ %s_t v; long long iv; float fv; double dv; (void)iv; (void)fv; (void)dv; memset(&v, 0, sizeof(v)); %s_assign(&v, %s);' % (
+                    c, c, ', '.join(str(k + 1) for k in range(len(lv)))))
+                for k, (off, sz, kind) in enumerate(lv):
+                    if kind == 'i': o.append('  iv = 0; memcpy(&iv, (char *)&v + %d, %d); printf("A %s %d %%lld\\n", iv);' % (off, sz, c, k))
+                    elif sz == 4: o.append('  memcpy(&fv, (char *)&v + %d, 4); printf("A %s %d %%g\\n", (double)fv);' % (off, c, k))
+                    else: o.append('  memcpy(&dv, (char *)&v + %d, 8); printf("A %s %d %%g\\n", dv);' % (off, c, k))
+                o.append('}')
             o.append('printf("S %s %%zu %%zu\\n", sizeof(%s_t), (size_t)alignof(%s_t));' % (c, c, c))
             dep = 0
             for f in d.fields:
@@ -188,6 +217,9 @@ def expected_probe(schema, lay, ids_of, prefix=''):
             for f, off in zip(d.fields, offs):
                 es, ea, n = (1, 1, f['type'][2]) if (f['type'][0] == 'array' and f['type'][1] == ('scalar', 'char')) else schema.member_desc(f['type'], lay)
                 exp['F %s %s' % (c, f['name'])] = '%d %d' % (off, es * n)
+            lv = struct_leaves(schema, d, lay)
+            if lv and any(f['type'][0] == 'struct' for f in d.fields):
+                for k in range(len(lv)): exp['A %s %d' % (c, k)] = str(k + 1)
         elif d.kind == 'enum':
             exp['W %s' % c] = str(G.ssize(d.type))
             for n, v in d.values(): exp['E %s %s' % (c, n)] = str(v)
